@@ -344,3 +344,299 @@ def build_T9e(tree):
 
 
 TARGETS['T9e'] = {'file': 'volume.py', 'build': build_T9e}
+
+
+# ---------------------------------------------------------------------------------------------------------------------
+# T9f / T9g: where the arrays of results come from, and what is written in place (allocation kinds under tie T)
+#
+# kinds:  fresh      a newly allocated array (`.copy()`, np.pad, np.zeros, arithmetic, np.vstack ... and views of those)
+#         view       a view of the object's own array (`self._array[...]`, np.transpose(self._array, ...))
+#         given      an array handed in by the caller (a parameter)
+#         may_alias  numpy decides at run time whether it copies (np.ascontiguousarray, np.asarray, np.array(copy=False),
+#                    astype(copy=False), np.require, reshape / ravel of a non-fresh array)
+#         input      the object's own array / affine itself
+#         unknown    anything the classifier does not recognise  (=> the theorems about the table fail)
+FRESH_CALLS = {'np.pad', 'np.zeros', 'np.ones', 'np.empty', 'np.full', 'np.zeros_like', 'np.ones_like', 'np.empty_like',
+               'np.stack', 'np.vstack', 'np.hstack', 'np.column_stack', 'np.concatenate', 'np.eye', 'np.diag', 'np.dot',
+               'np.linalg.inv', 'np.cross', 'np.sqrt', 'np.abs', 'np.argsort', 'np.clip', 'np.exp', 'np.copy', 'np.around'}
+VIEW_CALLS = {'np.transpose', 'np.squeeze', 'np.moveaxis', 'np.swapaxes', 'np.flip', 'np.expand_dims', 'np.broadcast_to'}
+ALIAS_CALLS = {'np.ascontiguousarray', 'np.asarray', 'np.asanyarray', 'np.asfortranarray', 'np.require', 'np.atleast_3d',
+               'np.atleast_1d', 'np.atleast_2d', 'np.reshape', 'np.ravel'}
+VIEW_METHODS = {'transpose', 'squeeze', 'swapaxes', 'view', 'T'}
+ALIAS_METHODS = {'reshape', 'ravel', '__array__'}
+INPLACE_KW = {'out', 'overwrite_input', 'overwrite_x', 'overwrite_a'}
+INPLACE_METHODS = {'sort', 'fill', 'put', 'resize', 'itemset', 'setfield', 'partition', 'byteswap'}
+INPLACE_FUNCS = {'np.copyto', 'np.put', 'np.place', 'np.putmask', 'np.put_along_axis', 'np.fill_diagonal'}
+OWN_ARRAYS = {'self._array': 'input', 'self.array': 'input', 'self._affine': 'input'}
+
+
+def _has_kw(call, name, value=None):
+    for k in call.keywords:
+        if k.arg == name and (value is None or (isinstance(k.value, ast.Constant) and k.value.value is value)):
+            return True
+    return False
+
+
+def _derived(kind):
+    """kind of a view / possibly-aliasing derivative of an array of the given kind"""
+    return {'fresh': 'fresh', 'input': 'view', 'view': 'view', 'given': 'given', 'may_alias': 'may_alias'}.get(kind, 'unknown')
+
+
+class _Alloc:
+    def __init__(self, fn, params, nested=None, props=None):
+        self.fn = fn
+        self.params = set(params)
+        self.nested = nested or {}
+        self.props = props or {}
+        self.env = {}
+        for node in ast.walk(fn):
+            if isinstance(node, ast.FunctionDef) and node is not fn:
+                self.nested[node.name] = node
+        # flow-insensitive: a local name bound several times gets the join of its kinds
+        for node in self._own_nodes():
+            if isinstance(node, ast.Assign) and len(node.targets) == 1 and isinstance(node.targets[0], ast.Name):
+                self.env.setdefault(node.targets[0].id, [])
+            if isinstance(node, ast.AnnAssign) and node.value is not None and isinstance(node.target, ast.Name):
+                self.env.setdefault(node.target.id, [])
+        changed = True
+        rounds = 0
+        while changed and rounds < 6:
+            changed = False
+            rounds += 1
+            for node in self._own_nodes():
+                tgt = None
+                if isinstance(node, ast.Assign) and len(node.targets) == 1 and isinstance(node.targets[0], ast.Name):
+                    tgt = node.targets[0].id
+                elif isinstance(node, ast.AnnAssign) and node.value is not None and isinstance(node.target, ast.Name):
+                    tgt = node.target.id
+                if tgt is not None:
+                    k = self.kind(node.value)
+                    lst = self.env[tgt]
+                    if k not in lst:
+                        lst.append(k)
+                        changed = True
+
+    def _own_nodes(self):
+        skip = set()
+        for n in ast.walk(self.fn):
+            if isinstance(n, ast.FunctionDef) and n is not self.fn:
+                for m in ast.walk(n):
+                    if m is not n:
+                        skip.add(id(m))
+        return [n for n in ast.walk(self.fn) if id(n) not in skip]
+
+    def name_kind(self, name):
+        if name in self.env:
+            ks = [k for k in self.env[name] if k != 'pending']
+            if not ks:
+                return 'pending'
+            if len(set(ks)) == 1:
+                return ks[0]
+            if set(ks) <= {'fresh'}:
+                return 'fresh'
+            return 'may_alias' if 'unknown' not in ks else 'unknown'
+        if name in self.params:
+            return 'given'
+        return 'unknown'
+
+    def kind(self, e):
+        txt = ast.unparse(e)
+        if txt in OWN_ARRAYS:
+            return OWN_ARRAYS[txt]
+        if txt in self.props:
+            return self.props[txt]
+        if isinstance(e, ast.Name):
+            return self.name_kind(e.id)
+        if isinstance(e, ast.Subscript):
+            return _derived(self.kind(e.value))
+        if isinstance(e, ast.Attribute) and e.attr in VIEW_METHODS:
+            return _derived(self.kind(e.value))
+        if isinstance(e, (ast.BinOp, ast.UnaryOp, ast.Compare, ast.List, ast.ListComp, ast.Dict, ast.DictComp, ast.Tuple)):
+            return 'fresh'      # arithmetic allocates; python containers built here are the method's own
+        if isinstance(e, ast.IfExp):
+            a, b = self.kind(e.body), self.kind(e.orelse)
+            return a if a == b else ('unknown' if 'unknown' in (a, b) else 'may_alias')
+        if isinstance(e, ast.Call):
+            f = ast.unparse(e.func)
+            if isinstance(e.func, ast.Attribute):
+                m = e.func.attr
+                if m == 'copy' and not e.args:
+                    return 'fresh'
+                if m == 'astype':
+                    return _derived(self.kind(e.func.value)) if _has_kw(e, 'copy', False) else 'fresh'
+                if m in ('min', 'max', 'mean', 'sum', 'std', 'tolist', 'item'):
+                    return 'fresh'
+                if m in VIEW_METHODS and not f.startswith('np.'):
+                    return _derived(self.kind(e.func.value))
+                if m in ALIAS_METHODS and not f.startswith('np.'):
+                    k = self.kind(e.func.value)
+                    return 'fresh' if k == 'fresh' else 'may_alias'
+            if f in FRESH_CALLS or f in ('np.median', 'np.mean', 'np.min', 'np.max'):
+                return 'fresh'
+            if f == 'np.array':
+                if _has_kw(e, 'copy', False) and e.args:
+                    k = self.kind(e.args[0])
+                    return 'fresh' if k == 'fresh' else 'may_alias'
+                return 'fresh'
+            if f in VIEW_CALLS and e.args:
+                return _derived(self.kind(e.args[0]))
+            if f in ALIAS_CALLS and e.args:
+                k = self.kind(e.args[0])
+                return 'fresh' if k == 'fresh' else 'may_alias'
+            if f in self.nested:
+                rets = [self.kind_in(self.nested[f], r.value) for r in ast.walk(self.nested[f])
+                        if isinstance(r, ast.Return) and r.value is not None]
+                if rets and len(set(rets)) == 1:
+                    return rets[0]
+                return 'unknown'
+        return 'unknown'
+
+    def kind_in(self, nested_fn, e):
+        sub = _Alloc(nested_fn, [a.arg for a in nested_fn.args.args], props=self.props)
+        sub.env.update({k: v for k, v in self.env.items() if k not in sub.env})
+        return sub.kind(e)
+
+    def writes(self, qual):
+        """(function, written variable, kind of the written array) for every in-place store, and flagged in-place calls"""
+        out, calls = [], []
+        fns = [(qual, self)]
+        for name, n in self.nested.items():
+            sub = _Alloc(n, [a.arg for a in n.args.args], props=self.props)
+            sub.env.update({k: v for k, v in self.env.items() if k not in sub.env})
+            fns.append((f'{qual}.{name}', sub))
+        for q, an in fns:
+            for node in an._own_nodes():
+                tgts = []
+                if isinstance(node, ast.Assign):
+                    tgts = [t for t in node.targets if isinstance(t, ast.Subscript)]
+                elif isinstance(node, ast.AugAssign):
+                    tgts = [node.target]
+                for t in tgts:
+                    base = t.value if isinstance(t, ast.Subscript) else t
+                    # augmented assignment to a plain number is no array write: only names / attributes known as arrays count
+                    k = an.kind(base)
+                    if isinstance(node, ast.AugAssign) and isinstance(t, ast.Name) and k in ('unknown', 'given') \
+                            and t.id not in an.env:
+                        k = 'unknown'
+                    out.append((q, ast.unparse(base), k))
+                if isinstance(node, ast.Call):
+                    f = ast.unparse(node.func)
+                    kws = [k.arg for k in node.keywords if k.arg in INPLACE_KW and not (
+                        isinstance(k.value, ast.Constant) and k.value.value in (False, None))]
+                    if kws or f in INPLACE_FUNCS or (isinstance(node.func, ast.Attribute) and node.func.attr in INPLACE_METHODS
+                                                     and not f.startswith('np.')):
+                        tgt = node.func.value if isinstance(node.func, ast.Attribute) and not f.startswith('np.') else (
+                            node.args[0] if node.args else None)
+                        calls.append((q, ''.join(ast.unparse(node).split())[:80], an.kind(tgt) if tgt is not None else 'unknown'))
+        return out, calls
+
+
+def _ctor_kwarg(fn, kw):
+    """expression passed as `kw=` in the constructor / with_array call the method returns"""
+    found = []
+    for r in ast.walk(fn):
+        if isinstance(r, ast.Return) and isinstance(r.value, ast.Call):
+            f = ast.unparse(r.value.func)
+            if f in ('self.__class__', 'Volume', 'VolumeGeometry', 'self.with_array', 'cls'):
+                for k in r.value.keywords:
+                    if k.arg == kw:
+                        found.append((f, k.value))
+                if f == 'self.with_array' and kw == 'array' and r.value.args:
+                    found.append((f, r.value.args[0]))
+    return found
+
+
+def _lean_str(x):
+    return '"' + x.replace('\\', '\\\\').replace('"', '\\"') + '"'
+
+
+ARRAY_METHODS = ['Volume.copy', 'Volume.with_array', 'Volume.__getitem__', 'Volume.permute_spatial_axes',
+                 'Volume.permute_channel_axes_by_index', 'Volume.get_channel', 'Volume.pad']
+AFFINE_METHODS = ['Volume.copy', 'Volume.with_array', 'VolumeGeometry.copy', 'VolumeGeometry.with_array', 'Volume.get_geometry']
+
+
+def build_T9f(tree):
+    """volume.py: how each operation produces the array / affine of its result, and what it writes in place"""
+    from py2lean import lean_table
+    # the `affine` property must hand out a copy (it is what `_prepare_pad_width` passes on)
+    prop = find_func(tree, '_VolumeBase.affine')
+    prets = [r.value for r in ast.walk(prop) if isinstance(r, ast.Return)]
+    props = {}
+    if len(prets) == 1:
+        props['self.affine'] = _Alloc(prop, []).kind(prets[0])
+    rows_arr, rows_aff, rows_w, rows_c, spans = [], [], [], [], []
+    for qual in ARRAY_METHODS:
+        fn = find_func(tree, qual)
+        an = _Alloc(fn, [a.arg for a in fn.args.args if a.arg != 'self'], props=props)
+        found = _ctor_kwarg(fn, 'array')
+        if not found:
+            raise Unsupported(f'{qual}: no returned constructor / with_array call with an array argument')
+        kinds = sorted({an.kind(e) for _, e in found})
+        rows_arr.append(f'({_lean_str(qual)}, {_lean_str("+".join(kinds))})')
+        w, c = an.writes(qual)
+        rows_w += [f'({_lean_str(q)}, {_lean_str(v)}, {_lean_str(k)})' for q, v, k in w]
+        rows_c += [f'({_lean_str(q)}, {_lean_str(t)}, {_lean_str(k)})' for q, t, k in c]
+        spans.append(fn)
+    for qual in AFFINE_METHODS:
+        fn = find_func(tree, qual)
+        an = _Alloc(fn, [a.arg for a in fn.args.args if a.arg != 'self'], props=props)
+        found = _ctor_kwarg(fn, 'affine')
+        if not found:
+            raise Unsupported(f'{qual}: no returned constructor call with an affine argument')
+        kinds = sorted({an.kind(e) for _, e in found})
+        rows_aff.append(f'({_lean_str(qual)}, {_lean_str("+".join(kinds))})')
+        spans.append(fn)
+    # helpers that build affines / indices in this file: in-place stores only
+    for qual in ['_VolumeBase._prepare_getitem_index', '_VolumeBase._prepare_pad_width', '_VolumeBase._permute_affine',
+                 '_VolumeBase.map_indices_to_reference', '_VolumeBase.__init__', 'Volume.__init__']:
+        fn = find_func(tree, qual)
+        an = _Alloc(fn, [a.arg for a in fn.args.args if a.arg != 'self'], props=props)
+        w, c = an.writes(qual)
+        rows_w += [f'({_lean_str(q)}, {_lean_str(v)}, {_lean_str(k)})' for q, v, k in w if not v.startswith('self.')]
+        rows_c += [f'({_lean_str(q)}, {_lean_str(t)}, {_lean_str(k)})' for q, t, k in c]
+        # attribute initialisation in __init__ (`self._x = ...`) is no array write; element stores into self.* are
+        rows_w += [f'({_lean_str(q)}, {_lean_str(v)}, {_lean_str(k)})' for q, v, k in w if v.startswith('self.') and
+                   v in OWN_ARRAYS]
+        spans.append(fn)
+    text = (lean_table('volumeArrayAlloc', 'List (String × String)', rows_arr,
+                       'volume.py: kind of the array handed to the result (`array=` of the returned constructor / with_array call)')
+            + '\n\n' + lean_table('volumeAffineAlloc', 'List (String × String)', rows_aff,
+                                   'volume.py: kind of the affine handed to the result (`self.affine` = '
+                                   + props.get('self.affine', '?') + ')')
+            + '\n\n' + (lean_table('volumeArrayWrites', 'List (String × String × String)', rows_w,
+                                    'volume.py: every in-place store (function, written array, its kind)') if rows_w else
+                         '/-- volume.py: every in-place store (function, written array, its kind) -/\n'
+                         'def volumeArrayWrites : List (String × String × String) := []')
+            + '\n\n' + (lean_table('volumeInplaceCalls', 'List (String × String × String)', rows_c,
+                                    'volume.py: calls that write into an existing array (out=, overwrite_input=, .sort() ...)')
+                         if rows_c else '/-- volume.py: calls that write into an existing array (out=, overwrite_input=, .sort() ...) -/\n'
+                         'def volumeInplaceCalls : List (String × String × String) := []')
+            + '\n\n' + f'def volumeAffineProperty : String := {_lean_str(props.get("self.affine", "unknown"))}')
+    return text, span_sha([st for fn in spans for st in fn.body])
+
+
+def build_T9g(tree):
+    """spatial.py: in-place stores of the affine helpers used by the volume operations"""
+    from py2lean import lean_table
+    rows_w, rows_c, rows_r, spans = [], [], [], []
+    for qual in ['_translate_affine_matrix', '_transform_affine_matrix', '_stack_affine_matrix']:
+        fn = find_func(tree, qual)
+        an = _Alloc(fn, [a.arg for a in fn.args.args])
+        w, c = an.writes(qual)
+        rows_w += [f'({_lean_str(q)}, {_lean_str(v)}, {_lean_str(k)})' for q, v, k in w]
+        rows_c += [f'({_lean_str(q)}, {_lean_str(t)}, {_lean_str(k)})' for q, t, k in c]
+        rets = sorted({an.kind(r.value) for r in ast.walk(fn) if isinstance(r, ast.Return) and r.value is not None})
+        rows_r.append(f'({_lean_str(qual)}, {_lean_str("+".join(rets))})')
+        spans.append(fn)
+    text = (lean_table('affineHelperWrites', 'List (String × String × String)', rows_w,
+                       'spatial.py affine helpers: every in-place store (function, written array, its kind)') if rows_w else
+            'def affineHelperWrites : List (String × String × String) := []')
+    text += '\n\n' + (lean_table('affineHelperInplaceCalls', 'List (String × String × String)', rows_c, 'in-place calls')
+                       if rows_c else 'def affineHelperInplaceCalls : List (String × String × String) := []')
+    text += '\n\n' + lean_table('affineHelperReturns', 'List (String × String)', rows_r,
+                                 'spatial.py affine helpers: kind of the returned matrix')
+    return text, span_sha([st for fn in spans for st in fn.body])
+
+
+TARGETS['T9f'] = {'file': 'volume.py', 'build': build_T9f}
+TARGETS['T9g'] = {'file': 'spatial.py', 'build': build_T9g}
